@@ -128,4 +128,31 @@ CHECKS = {
         "level_note": "Bounds (the property's 'sane magnitudes'): amounts <= 10^36, periods/steps >= 1 s, multipliers <= 1, block times within about 60 years of 2023, <= 60 exponential steps per period in the horizon. Full ABCI export/import into a fresh app is exercised by C12, not here.",
         "design_ref": "DESIGN.md §5 C10",
     },
+    "C07": {
+        "title": "Split/move of vesting is exact and preserves the release schedule",
+        "level": "exploration",
+        "technique": "property-based testing (rapid) with a structured amount generator (m*10^k+o, small-denominator elapsed fractions), exactness oracle on locked/spendable coins and a metamorphic schedule-preservation relation at sampled future times",
+        "tests": [T("TestC07", 3000, 12000, qshards=2)],
+        "plain_tests": ["TestRegressC07"],
+        "rule": "cases = continuous vesting sender with 1-3 denominations, original vesting per denomination half from the shape m*10^k+o (m in {1,2,3,5,7,9}, k<=30, o in -3..3) and half from the boundary mixture up to 10^30; schedule with elapsed fraction num/den for den in {2,3,4,5,7,8,10,100,997,1000} (num=-1: start in the future); optional extra spendable coins; optional real MsgDelegate of part of the balance; then a chain of 1-5 split / move / move-by-denoms messages from the sender or earlier recipients with per-denomination amounts in {1, locked, locked-1, omitted, uniform in 1..locked}. "
+                "Non-trivial = a split accepted strictly inside the vesting period for less than everything locked. Distinct = SHA-256 of the history.",
+        "min_nontrivial_fraction": 0.2,
+        "min_class_fraction": {"delegated_vesting": 0.08, "chain_depth_ge2": 0.3, "ov_digits_20": 0.08, "ov_digits_25": 0.05, "ov_digits_30": 0.05, "multi_denom": 0.3},
+        "level_text": "Every request within the sender's locked, undelegated coins must be accepted; afterwards bank LockedCoins(sender) fell by exactly the request per denomination, SpendableCoins(sender) is unchanged, the recipient is a new continuous vesting account with original vesting == locked == balance == request, end == sender's end, start == max(now, sender's start); at five future instants sender+recipient vest what the pre-split sender would (within 3+ceil(3*OV*10^-18) units), locked likewise when nothing is delegated and never less when vesting coins are delegated.",
+        "level_note": "With delegated vesting the statement's 'locked' equality cannot hold by construction of x/auth vesting accounts (locked = max(vesting - delegated, 0)); the check then demands equality of vesting coins and the safe-direction inequality on locked coins (DESIGN §5 C07). Bounds: amounts <= 10^30, 3 denominations, chains <= 5.",
+        "design_ref": "DESIGN.md §5 C07",
+    },
+    "C09": {
+        "title": "Custom messages can never replace or alter an existing account",
+        "level": "exploration",
+        "technique": "property-based testing (rapid): target-address state x every account-creating message x signer; oracle = byte comparison of every pre-existing x/auth record before and after",
+        "tests": [T("TestC09", 2500, 8000, qshards=2)],
+        "rule": "cases = target address state in {absent, base account without key, base account with public key and sequence > 0, continuous vesting account (optionally delegating), module account, the vesting sender itself} x message in {pool send, direct vesting-account creation, split, move, move-by-denoms, cfesignature MsgCreateAccount with secp256k1 / ed25519 / malformed public-key JSON} x signer. cfesignature messages run through the app router (unroutable on this tree) and directly through keeper.NewMsgServerImpl with baseapp's accept/discard rule; a panic counts as rejection here. "
+                "Oracle: the proto bytes of every account that existed before are unchanged afterwards, except that an accepted split/move may reduce the sender's own original vesting (all other fields equal). Non-trivial = the target address existed. Distinct = SHA-256 of (target state, message).",
+        "min_nontrivial_fraction": 0.5,
+        "min_class_fraction": {"msg_*types.MsgCreateAccount": 0.1, "target_continuous_vesting": 0.08, "target_base_with_key_and_sequence": 0.08, "target_module_account": 0.08},
+        "level_text": "Exhaustive-by-generation product of target states and account-creating messages with a byte-exact before/after oracle over the whole account store.",
+        "level_note": "The signature module's Msg service is not registered with the app on this tree (DESIGN §2.6); its handlers are driven directly because the property anchors in them and registering the service is a one-line change.",
+        "design_ref": "DESIGN.md §5 C09",
+    },
 }
